@@ -339,6 +339,18 @@ func registerIntrinsics(e *Engine) {
 		ret(r)
 	}
 
+	// ---- math: the assembly kernels are replaced by the package's own portable Go versions ----
+	for arch, pure := range map[string]string{"archTrunc": "trunc", "archFloor": "floor", "archCeil": "ceil", "archModf": "modf"} {
+		pure := pure
+		e.intr["math."+arch] = func(st *State, fn *ssa.Function, args []Value, ret func(Value)) {
+			mp := e.prog.ImportedPackage("math")
+			if mp == nil || mp.Func(pure) == nil {
+				st.unsupported("math.%s not available", pure)
+			}
+			st.pushFrameClosure(Func{Fn: mp.Func(pure)}, args, func(s *State, v Value) { ret(v) })
+		}
+	}
+
 	// ---- fmt / errors: opaque text ----
 	opaqueStr := func(st *State, fn *ssa.Function, args []Value, ret func(Value)) { ret(st.strConst("<fmt>")) }
 	for _, n := range []string{"fmt.Sprintf", "fmt.Sprint", "fmt.Sprintln"} {
